@@ -186,6 +186,13 @@ def check(ctx):
             ctx.violation('R5.default', fsite(ch), 'default weights are not 1/channels for every channel',
                           {'first_channel_weights_': T.pretty(got)[:300]})
     ctx.guard('R5.default', fsite(ch), r5b)
+    _shared(ctx)
+
+
+def _shared(ctx):
+    from . import C19
+    from .common import Proxy, share
+    share(ctx, 'C19', 'R7/C19.', ['R2.next_weights', 'R2.parameters_stored'])
 
 
 def algebra_eq(a, b):
